@@ -336,16 +336,41 @@ pub struct WScript {
     pub chunks: Vec<usize>,
     /// 0 = accept everything offered
     pub rest: usize,
+    /// (write-call index, fault): that call fails and accepts nothing
+    pub faults: Vec<(usize, WFault)>,
+    /// (flush-call index, error kind index): that `flush` call fails
+    pub flush_faults: Vec<(usize, u8)>,
+}
+
+#[derive(Clone, Debug, PartialEq, Eq)]
+pub enum WFault {
+    /// `ErrorKind::Interrupted`: `write_all` retries
+    Interrupted,
+    /// a hard error of the given kind index (see `FAULT_KINDS`), e.g. a full disk
+    Hard(u8),
+    /// `Ok(0)` although bytes were offered (a sink that takes no more)
+    Zero,
 }
 
 impl WScript {
     pub fn to_j(&self) -> J {
-        json!({"chunks": self.chunks, "rest": self.rest})
+        json!({"chunks": self.chunks, "rest": self.rest,
+            "faults": self.faults.iter().map(|(i, f)| match f {
+                WFault::Interrupted => json!({"call": i, "interrupted": true}),
+                WFault::Hard(k) => json!({"call": i, "hard": k}),
+                WFault::Zero => json!({"call": i, "zero": true}),
+            }).collect::<Vec<_>>(),
+            "flush_faults": self.flush_faults.iter().map(|(i, k)| json!([i, k])).collect::<Vec<_>>()})
     }
     pub fn from_j(j: &J) -> Result<WScript, String> {
         Ok(WScript {
             chunks: j.get("chunks").and_then(|v| v.as_array()).ok_or("wscript.chunks")?.iter().map(|v| v.as_u64().unwrap_or(1) as usize).collect(),
             rest: j.get("rest").and_then(|v| v.as_u64()).ok_or("wscript.rest")? as usize,
+            faults: j.get("faults").and_then(|v| v.as_array()).map(|a| a.iter().map(|f| {
+                let call = f.get("call").and_then(|v| v.as_u64()).unwrap_or(0) as usize;
+                if f.get("interrupted").is_some() { (call, WFault::Interrupted) } else if f.get("zero").is_some() { (call, WFault::Zero) } else { (call, WFault::Hard(f.get("hard").and_then(|v| v.as_u64()).unwrap_or(0) as u8)) }
+            }).collect()).unwrap_or_default(),
+            flush_faults: j.get("flush_faults").and_then(|v| v.as_array()).map(|a| a.iter().map(|f| (f[0].as_u64().unwrap_or(0) as usize, f[1].as_u64().unwrap_or(0) as u8)).collect()).unwrap_or_default(),
         })
     }
 }
@@ -353,12 +378,12 @@ impl WScript {
 pub fn gen_wscript(rng: &mut Rng) -> WScript {
     match rng.below(6) {
         0 | 1 => WScript::default(),
-        2 => WScript { chunks: vec![], rest: 1 },
-        3 => WScript { chunks: vec![], rest: rng.range(2, 9) },
+        2 => WScript { chunks: vec![], rest: 1, ..Default::default() },
+        3 => WScript { chunks: vec![], rest: rng.range(2, 9), ..Default::default() },
         _ => {
             let n = rng.range(1, 40);
             let maxk = *rng.pick(&[1usize, 2, 3, 7, 20, 200]);
-            WScript { chunks: (0..n).map(|_| rng.range(1, maxk)).collect(), rest: if rng.chance(1, 2) { 0 } else { rng.range(1, maxk) } }
+            WScript { chunks: (0..n).map(|_| rng.range(1, maxk)).collect(), rest: if rng.chance(1, 2) { 0 } else { rng.range(1, maxk) }, ..Default::default() }
         }
     }
 }
@@ -373,19 +398,88 @@ pub struct SimWriter {
     pub flushes: usize,
     /// length of `out` after each write call: every entry is an instant a consumer could look
     pub snapshots: Vec<usize>,
+    /// every injected failure that was actually returned
+    pub failures: Vec<WFailure>,
+    pub interrupted: usize,
+    taken: bool,
+}
+
+#[derive(Clone, Debug)]
+pub struct WFailure {
+    /// bytes the sink held when the call failed
+    pub out_len: usize,
+    pub token: u64,
+    /// `{:?}` of the error kind the caller should see
+    pub kind: String,
+    pub in_flush: bool,
+}
+
+/// What a sink recorded, detached from the sink itself.
+#[derive(Default)]
+pub struct SinkState {
+    pub out: Vec<u8>,
+    pub snapshots: Vec<usize>,
+    pub partial_writes: usize,
+    pub write_calls: usize,
+    pub flushes: usize,
+    pub failures: Vec<WFailure>,
+    pub interrupted: usize,
+}
+
+thread_local! {
+    static DROPPED_SINK: std::cell::RefCell<Option<SinkState>> = const { std::cell::RefCell::new(None) };
+}
+
+/// State of the sink most recently dropped on this thread (a writer whose `into_inner()` fails drops its sink).
+pub fn take_dropped_sink() -> Option<SinkState> {
+    DROPPED_SINK.with(|d| d.borrow_mut().take())
+}
+
+impl Drop for SimWriter {
+    fn drop(&mut self) {
+        if !self.taken {
+            let st = self.take_state();
+            DROPPED_SINK.with(|d| *d.borrow_mut() = Some(st));
+        }
+    }
 }
 
 impl SimWriter {
+    pub fn take_state(&mut self) -> SinkState {
+        let st = SinkState { out: std::mem::take(&mut self.out), snapshots: std::mem::take(&mut self.snapshots), partial_writes: self.partial_writes, write_calls: self.write_calls, flushes: self.flushes, failures: std::mem::take(&mut self.failures), interrupted: self.interrupted };
+        self.taken = true;
+        st
+    }
     pub fn new(script: WScript) -> Self {
-        SimWriter { out: Vec::new(), script, idx: 0, write_calls: 0, partial_writes: 0, flushes: 0, snapshots: Vec::new() }
+        SimWriter { out: Vec::new(), script, idx: 0, write_calls: 0, partial_writes: 0, flushes: 0, snapshots: Vec::new(), failures: Vec::new(), interrupted: 0, taken: false }
     }
 }
 
 impl Write for SimWriter {
     fn write(&mut self, buf: &[u8]) -> io::Result<usize> {
+        let call = self.write_calls;
         self.write_calls += 1;
         if buf.is_empty() {
             return Ok(0);
+        }
+        if let Some(f) = self.script.faults.iter().find(|(i, _)| *i == call).map(|(_, f)| f.clone()) {
+            match f {
+                WFault::Interrupted => {
+                    self.interrupted += 1;
+                    return Err(io::Error::new(io::ErrorKind::Interrupted, "sim: interrupted"));
+                }
+                WFault::Hard(k) => {
+                    let token = self.failures.len() as u64 + 1;
+                    let kind = FAULT_KINDS[k as usize % FAULT_KINDS.len()];
+                    self.failures.push(WFailure { out_len: self.out.len(), token, kind: format!("{:?}", kind), in_flush: false });
+                    return Err(sim_error(kind, token));
+                }
+                WFault::Zero => {
+                    // `write_all` turns this into its own WriteZero error (no token of ours)
+                    self.failures.push(WFailure { out_len: self.out.len(), token: 0, kind: "WriteZero".into(), in_flush: false });
+                    return Ok(0);
+                }
+            }
         }
         let k = if self.idx < self.script.chunks.len() {
             let k = self.script.chunks[self.idx];
@@ -405,7 +499,14 @@ impl Write for SimWriter {
         Ok(n)
     }
     fn flush(&mut self) -> io::Result<()> {
+        let call = self.flushes;
         self.flushes += 1;
+        if let Some(k) = self.script.flush_faults.iter().find(|(i, _)| *i == call).map(|(_, k)| *k) {
+            let token = self.failures.len() as u64 + 1;
+            let kind = FAULT_KINDS[k as usize % FAULT_KINDS.len()];
+            self.failures.push(WFailure { out_len: self.out.len(), token, kind: format!("{:?}", kind), in_flush: true });
+            return Err(sim_error(kind, token));
+        }
         Ok(())
     }
 }
